@@ -100,6 +100,34 @@ def mutations(rng, items, tier):
     return out
 
 
+FORMS = ["var v = 1;", "var v;", "v = v + 1;", "v += 2 * 3;", "print(v, 1);", "import \"lib/util\";", "import \"lib/util\" as u;", "fn g(a, b) { return a; }",
+         "var f = |a, b| a + b;", "var f = || { return 1; };", "if v { v = 1; } else if w { v = 2; } else { v = 3; }", "while v < 3 { v = v + 1; continue; }",
+         "for i in 0..3 { if i { break; } }", "return v;", "throw Error.new(\"x\");", "try { v = 1; } catch e { v = 2; } finally { v = 3; }", "try { v = 1; } finally { v = 3; }",
+         "{ var inner = 1; { var inner = 2; } }", "class K { fn m(self, a) { return self.a; } #[static] fn s() { return Self; } }",
+         "#[constructor(new), derive(Base)] class K { #[constructor] fn make(self) { super.make(); } fn m(self) { return super.m; } }",
+         "#[constructor] class K {}", "#[derive] class K {}", "#[derive(K)] class K {}", "#[static] fn g() {}", "var s = \"a${v}b${1 + 2}c\";", "var m = {1: 2, \"k\": [1, 2, (3,)]};",
+         "v.a.b[1](2).c = v[0..2];", "v = !-~v && v || v == v != v <= v;", "var t = (1, 2); var u = (1,); var w = ();", "x.y += 1; x[0] = 2;"]
+CONTEXTS = [("", ""), ("{ ", " }"), ("fn outer() { var o = 1; ", " return o; }"), ("class C { fn meth(self) { ", " } }"), ("while true { var l = 1; ", " }"),
+            ("try { ", " } catch err { }"), ("var lam = || { ", " };"), ("if c { var t = 1; { ", " } }")]
+TAIL = "\nvar after = 1;\n{ var again = after; fn later() { return again; } }\nprint(after);\n"
+
+
+def skeleton_sources():
+    """every statement form in every context, cut after each token / with each token deleted / doubled, followed by more code: a syntax error
+    anywhere inside any construct, at any scope depth, and the parser has to carry on with what follows"""
+    out = []
+    for form in FORMS:
+        toks = re.findall(r"\"(?:[^\"\\\\]|\\\\.)*\"|[A-Za-z_][A-Za-z_0-9]*|\d+(?:\.\d+)?|\.\.|[-+*/%&|^<>=!]=|&&|\|\||<<=?|>>=?|[^\sA-Za-z_0-9]", form)
+        for pre, post in CONTEXTS:
+            out.append(pre + form + post + TAIL)
+            for i in range(len(toks)):
+                out.append(pre + " ".join(toks[:i]) + post + TAIL)                       # cut short, context closed
+                out.append(pre + " ".join(toks[:i] + toks[i + 1:]) + post + TAIL)        # one token missing
+                out.append(pre + " ".join(toks[:i] + [toks[i]] + toks[i:]) + post + TAIL)  # one token doubled
+            out.append(pre + form)                                                         # context left open
+    return out
+
+
 def parser_part(rep, dev, tier, rng, sources, what):
     """compile every source with parser events on; TraceParser.tla validates the recovery discipline and the result"""
     cases = [{"id": i, "main": s, "compile_only": True, "events": 8, "stack_mb": 64} for i, s in enumerate(sources)]
@@ -159,13 +187,19 @@ def main(tier, seed):
     lines = ["\n".join(p) for p in itertools.product(vocab2, repeat=2)]
     lines += ["\n".join(rng.choice(vocab2) for _ in range(rng.choice([3, 3, 4, 5, 6, 8, 12]))) for _ in range(30000 if tier == "quick" else 300000)]
     n5, s5 = parsertwin.check(rep, dev, lines, "token sequences, one token per line", tag="c03twinB")
-    # nesting within stated bounds
-    deep = ["(" * d + "1" + ")" * d + ";" for d in (1, 10, 64)] + ["{" * d + "}" * d for d in (1, 10, 64)] + \
+    # every statement form x context x (cut / missing / doubled token), followed by more code
+    skel = skeleton_sources()
+    n6, s6 = parser_part(rep, dev, tier, rng, skel, "statement skeletons")
+    n7, s7 = parsertwin.check(rep, dev, skel, "statement skeletons", tag="c03twinC")
+    rep.coverage["skeleton_sources"] = len(skel)
+    # nesting within stated bounds (blocks and conditionals also around 256 open scopes)
+    deep = ["(" * d + "1" + ")" * d + ";" for d in (1, 10, 64)] + ["{" * d + "}" * d for d in (1, 10, 64, 255, 256, 257, 300)] + \
+           ["fn f(c) { " + "if c { " * d + "print(c);" + " }" * d + " }\nf(true);" for d in (64, 255, 256, 257)] + \
            ["var s = " + ("\"a${" * d) + "1" + ("}\"" * d) + ";" for d in (7, 8, 9, 12)] + ["[" * d + "]" * d + ";" for d in (10, 64)]
     n3, s3 = parser_part(rep, dev, tier, rng, deep, "nesting")
-    rep.coverage["states"] = states + s1 + s2 + s3 + s4 + s5
-    rep.coverage["transitions"] = states + s1 + s2 + s3 + s4 + s5
-    rep.coverage["traces_validated_against_impl"] = nscan + n1 + n2 + n3 + n4 + n5
+    rep.coverage["states"] = states + s1 + s2 + s3 + s4 + s5 + s6 + s7
+    rep.coverage["transitions"] = states + s1 + s2 + s3 + s4 + s5 + s6 + s7
+    rep.coverage["traces_validated_against_impl"] = nscan + n1 + n2 + n3 + n4 + n5 + n6 + n7
     rep.coverage["scanner_sources"] = nscan
     rep.coverage["parser_inputs"] = n1 + n2 + n3
     rep.coverage["exhaustive"] = True
